@@ -159,10 +159,10 @@ def check_function(desc):
 CHECKS = {"grid": check_grid, "function": check_function}
 
 
-def shards(tier):
+def shards(tier, seed=1):
     n = 1 if tier == "quick" else 10
-    out = [{"check": "grid", "fmt": f, "examples": 80 * n, "budget_s": 100 * n} for f in (".msh", ".vtu", ".ply")]
-    out += [{"check": "function", "group": g, "examples": 60 * n, "budget_s": 120 * n, "rep": r} for g in ("scalar", "vector") for r in range(2)]
+    out = [{"check": "grid", "fmt": f, "examples": 80 * n, "budget_s": 120 * n} for f in (".msh", ".vtu", ".ply")]
+    out += [{"check": "function", "group": g, "examples": 80 * n, "budget_s": 150 * n} for g in ("scalar", "vector")]
     return out
 
 
